@@ -427,6 +427,13 @@ class ModelInputArrayBijector:
     low, high = spec.bounds
     if spec.type != NumpyArraySpecType.CONTINUOUS:
       return cls.identity(attr.evolve(spec, scale=None))
+    if not np.isfinite(high - low):
+      # E.g. bounds beyond the range of float32: scaling would produce NaNs,
+      # which decode to a missing parameter.
+      raise ValueError(
+          f'The bounds ({low}, {high}) of {spec.name} cannot be scaled in'
+          f' {spec.dtype}.'
+      )
     if low == high:
 
       def backward_fn(y):
